@@ -548,7 +548,7 @@ def _lemma_entry(name, tier, seed, offset):
     return fn(FnTask("C30", name, None), tier, seed)
 
 
-def hard_timeout(name, seconds=90, attempts=3):
+def hard_timeout(name, seconds=60, attempts=2):
     """z3 does not always honour its own timeout on quantified string/array goals: the lemma runs in a child
     process that is killed after `seconds`; it is retried with shifted fresh-name counters (another search order);
     if every attempt is killed the obligation is reported undecided, never discharged"""
